@@ -33,7 +33,8 @@ Definition star_of (name : bytes) : option bool :=
   | None => None
   end.
 
-Definition celements := @elements Z concrete_q Z.eqb Z.ltb.
+(* the variants the working tree implements (T1 probes in Gen/AcceptT.v) *)
+Definition celements := @elements Z concrete_q Z.eqb Z.ltb EMPTY_Q_VARIANT ACCEPT_EXT_VARIANT.
 
 Definition check (c : case) : bool :=
   match c with
